@@ -365,6 +365,7 @@ pub fn pattern_strategy(max_period: usize) -> BoxedStrategy<Pattern> {
 
 pub fn main_recycle(args: &Args) -> i32 {
     util::install_crash_reporter();
+    util::CASE_ALARM_SECS.store(900, std::sync::atomic::Ordering::Relaxed); // one case = up to 10^6 rounds
     util::silence_panics();
     let seed = args.u64("seed", 1);
     let worker = args.u64("worker", 0);
